@@ -47,7 +47,7 @@ structure MapM (α : Type) where
 /-- `pd.concat([v.df for v in objs if isinstance(v, (type(m.hits), type(m.holds)))])`, three columns.
 The rows of `hits` are taken as they are: a hit list normally has no `length` column (`length = none`, the NaN
 that `concat` fills in), but a list that carries a stray `length` column contributes its values — the loop
-below tells hits from holds only by `isnan(length)` (known finding D46). -/
+below tells hits from holds only by `isnan(length)` (hence the domain hypothesis of `fullLn_spec`). -/
 def stacked {α} (m : MapM α) : List Row := m.hits ++ m.holds
 
 /-- the chart's own notes with their kind = the list they live in: a member of `hits` is a hit -/
